@@ -71,7 +71,9 @@ template <class I, class R1T, size_t... P> std::string chain2(const R1T& r1, con
   // report the final view relative to the ROOT handle
   submdspan_mapping_result_view<decltype(r2.mapping)> v{r2.mapping, static_cast<size_t>(r1.offset) + static_cast<size_t>(r2.offset)};
   Op o2 = o; o2.op = "alias"; std::string al = fmtRes(v, o2);
-  Op o3 = o; o3.op = "info"; return fmtRes(v, o3) + " " + al;
+  Op o3 = o; o3.op = "info";
+  return fmtRes(v, o3) + " l1off=" + std::to_string(static_cast<unsigned long long>(r1.offset)) + " l1span=" + num(static_cast<I>(r1.mapping.required_span_size())) +
+         " l2off=" + std::to_string(static_cast<unsigned long long>(r2.offset)) + " " + al;
 }
 template <class M, class... K, size_t... Q> std::string doSub(const M& m, const Op& o, std::index_sequence<Q...>) {
   using I = typename M::index_type; size_t p = 0;
